@@ -229,6 +229,9 @@ func checkErrorResponse(c *reqgen.Config, v *reqgen.Verdict, b *reqgen.Built, o 
 	if b != nil {
 		from, traced = b.Origin(o.err)
 	}
+	if b != nil && !traced && onlyCallbackObjections(v) {
+		return fmt.Sprintf("the only objections come from user callbacks (%s), but the returned error %T %q is none of the values they returned", strings.Join(v.Wrong, "; "), o.err, o.err)
+	}
 	if traced && from.Reject {
 		rej, ok := o.err.(*ws.ConnectionRejectedError)
 		if !ok || rej.StatusCode() != from.Chosen {
@@ -295,6 +298,20 @@ func checkErrorResponse(c *reqgen.Config, v *reqgen.Verdict, b *reqgen.Built, o 
 // sigUnicodeFold: an Upgrade value that equals "websocket" only under Unicode
 // simple case folding (LONG S, KELVIN SIGN) is accepted by both upgraders.
 const sigUnicodeFold = "C09/upgrade-value-unicode-fold"
+
+// onlyCallbackObjections: a must-fail case in which nothing but user callbacks
+// object; the error Upgrade returns must then be one of their values.
+func onlyCallbackObjections(v *reqgen.Verdict) bool {
+	if v.Kind != reqgen.MustFail || len(v.Wrong) == 0 {
+		return false
+	}
+	for _, w := range v.Wrong {
+		if !strings.HasPrefix(w, "On") && !strings.HasPrefix(w, "negotiator objects") {
+			return false
+		}
+	}
+	return true
+}
 
 // judge applies the property to one executed case; "" means it held.
 func judge(c *reqgen.Config, v *reqgen.Verdict, b *reqgen.Built, o outcome) string {
@@ -771,6 +788,13 @@ func TestExtensionLineGrid(t *testing.T) {
 		"ext-rej":  {Act: reqgen.ExtReject, Status: 403, Reason: "extension forbidden", Headers: []reqgen.HeaderKV{{Name: "X-Reject-Why", Value: "a"}}},
 		"ext-rej0": {Act: reqgen.ExtReject, Status: 0, Reason: "rejected without a status", Headers: []reqgen.HeaderKV{{Name: "X-Reject-Why", Value: "b c"}, {Name: "X-Rej-B", Value: "120"}}},
 		"ext-rej1": {Act: reqgen.ExtReject, Status: 0},
+		"ext-e1":   {Act: reqgen.ExtPlainError, ErrKind: reqgen.ErrSlice, Reason: "field a: bad; field b: bad"},
+		"ext-e2":   {Act: reqgen.ExtPlainError, ErrKind: reqgen.ErrMap, Reason: "map error"},
+		"ext-e3":   {Act: reqgen.ExtPlainError, ErrKind: reqgen.ErrFunc, Reason: "func error"},
+		"ext-e4":   {Act: reqgen.ExtPlainError, ErrKind: reqgen.ErrSliceStruct, Reason: "struct with slice"},
+		"ext-e5":   {Act: reqgen.ExtPlainError, ErrKind: reqgen.ErrTypedNil},
+		"ext-e6":   {Act: reqgen.ExtPlainError, ErrKind: reqgen.ErrValueStruct, Reason: "struct value"},
+		"ext-e7":   {Act: reqgen.ExtPlainError, ErrKind: reqgen.ErrWrapped, Reason: "wrapped"},
 		"ext-307":  {Act: reqgen.ExtReject, Status: 307, Reason: "moved", Headers: []reqgen.HeaderKV{{Name: "Location", Value: "https://example.com/ws"}}},
 		"ext-300":  {Act: reqgen.ExtReject, Status: 300},
 		"ext-599":  {Act: reqgen.ExtReject, Status: 599, Reason: "odd but legal"},
@@ -779,7 +803,7 @@ func TestExtensionLineGrid(t *testing.T) {
 		"ext-fmt":  {Act: reqgen.ExtPlainError, Reason: "%s%s%s %d %!"},
 	}
 	values := []string{"ext-acc; p=1", "ext-bare; q", "ext-dec", "ext-unknown; p", "ext-err", "ext-rej; p=1", "ext-rej0", "ext-rej1",
-		"ext-acc, ext-err", "ext-rej, ext-acc", "ext-pct", "ext-fmt", "ext-307", "ext-300", "ext-599", "ext-200", "ext-acc; =1", "ext-acc; p=\"1\"", ""}
+		"ext-acc, ext-err", "ext-rej, ext-acc", "ext-pct", "ext-fmt", "ext-e1", "ext-e2", "ext-e3", "ext-e4", "ext-e5", "ext-e6", "ext-e7", "ext-307", "ext-300", "ext-599", "ext-200", "ext-acc; =1", "ext-acc; p=\"1\"", ""}
 	n := 0
 	var walk func(kind reqgen.Kind, mode reqgen.ExtMode, lines []string, depth int) bool
 	walk = func(kind reqgen.Kind, mode reqgen.ExtMode, lines []string, depth int) bool {
@@ -951,8 +975,8 @@ func TestRejectionWithoutStatus(t *testing.T) {
 			for _, st := range []int{0, 401, 503, -1, 300, 301, 302, 303, 305, 307, 308, 399, 400, 426, 499, 500, 599, 100, 200, 204, 304, 600} {
 				for cb := 0; cb < 4; cb++ {
 					out := reqgen.Outcome{Kind: reqgen.CbReject, Status: st, Reason: reason, Headers: h}
-					if st < 0 { // plain error with the same text
-						out = reqgen.Outcome{Kind: reqgen.CbError, Reason: reason}
+					if st < 0 { // plain error with the same text: every kind of error value in turn
+						out = reqgen.Outcome{Kind: reqgen.CbError, Reason: reason, ErrKind: reqgen.ErrValueKind(n % int(reqgen.NumErrValueKinds))}
 					}
 					cfg := &reqgen.Config{Kind: reqgen.Raw, HeaderForm: reqgen.HeaderString, Header: []reqgen.HeaderKV{{Name: "X-Srv-A", Value: "a"}}}
 					switch cb {
